@@ -1200,7 +1200,18 @@ func oracleSessionValid(d *Dump) []string {
 // later operations may write a released key again) the clause is checked exactly: a held key is
 // deleted with a tombstone at the command's index, or released with value, flags, lock counter and
 // create index kept and the modify index set to the command's index, according to the behaviour.
-func oracleSessionEnd(before, after *Dump, idx uint64, isTxn bool) []string {
+func oracleSessionEnd(before, after *Dump, idx uint64, isTxn bool, ops []TxnOp) []string {
+	// inside a transaction a KV verb may release, re-lock, delete or re-create a key before or after
+	// the operation that ends its holder's session: keys named by the transaction's own KV verbs are
+	// left to the model comparison (operation by operation)
+	named := func(k string) bool {
+		for _, op := range ops {
+			if op.Kind == "kv" && (op.KV.Key == k || (op.Verb == "delete-tree" && strings.HasPrefix(k, op.KV.Key))) {
+				return true
+			}
+		}
+		return false
+	}
 	var out []string
 	liveAfter := map[string]bool{}
 	for _, s := range after.Sessions {
@@ -1219,7 +1230,7 @@ func oracleSessionEnd(before, after *Dump, idx uint64, isTxn bool) []string {
 			continue
 		}
 		for _, kv := range before.KVs {
-			if kv.S != s.ID {
+			if kv.S != s.ID || (isTxn && named(kv.K)) {
 				continue
 			}
 			a, ok := afterKV[kv.K]
@@ -1503,7 +1514,7 @@ func runHistory(id int, seed int64, mix string, n int, script []Cmd) History {
 		for _, o := range oracleSessionValid(&after) {
 			h.Oracle = append(h.Oracle, fmt.Sprintf("step %d: %s", i, o))
 		}
-		for _, o := range oracleSessionEnd(&before, &after, c.Idx, c.Kind == "txn") {
+		for _, o := range oracleSessionEnd(&before, &after, c.Idx, c.Kind == "txn", c.Ops) {
 			h.Oracle = append(h.Oracle, fmt.Sprintf("step %d: %s", i, o))
 		}
 		// ---- C05
@@ -1583,25 +1594,52 @@ func runHistory(id int, seed int64, mix string, n int, script []Cmd) History {
 			}
 		}
 		if c.Kind == "txn" && len(res.Errors) == 0 && !pureKV {
-			// sessions ended inside the transaction (by its node, service, check or session verbs) may
-			// have been re-locked later in it: resync holders only.  A transaction of KV verbs alone
-			// ends no session and is compared with the reference map exactly.
+			// A committed transaction that mixes KV verbs with node, service, check or session verbs:
+			// the dumps around it do not say at which operation a session ended, so the reference
+			// cannot interleave session ends with the KV verbs.  The keys such a transaction can
+			// touch -- the keys and prefixes its KV verbs name, and the keys held before it by a
+			// session that is gone after it -- are taken from the store; every other key must be
+			// exactly what the reference says.  (A transaction of KV verbs alone ends no session and is
+			// compared exactly; the model comparison covers the mixed ones operation by operation.)
+			gone := map[string]bool{}
+			liveAfter := map[string]bool{}
+			for _, s := range after.Sessions {
+				liveAfter[s.ID] = true
+			}
+			for _, s := range before.Sessions {
+				if !liveAfter[s.ID] {
+					gone[s.ID] = true
+				}
+			}
+			touched := func(k string) bool {
+				for _, op := range c.Ops {
+					if op.Kind != "kv" {
+						continue
+					}
+					if op.KV.Key == k || ((op.Verb == "delete-tree") && strings.HasPrefix(k, op.KV.Key)) {
+						return true
+					}
+				}
+				for _, kv := range before.KVs {
+					if kv.K == k && gone[kv.S] {
+						return true
+					}
+				}
+				return false
+			}
+			afterKV := map[string]KVRow{}
 			for _, kv := range after.KVs {
-				if r := ref[kv.K]; r != nil && r.session != kv.S {
-					r.session, r.mo, r.lock = kv.S, kv.M, kv.L
+				afterKV[kv.K] = kv
+				if touched(kv.K) {
+					ref[kv.K] = &refKV{kv.V, kv.F, kv.S, kv.L, kv.C, kv.M}
 				}
 			}
 			for k := range ref {
-				found := false
-				for _, kv := range after.KVs {
-					if kv.K == k {
-						found = true
-					}
-				}
-				if !found {
+				if _, ok := afterKV[k]; !ok && touched(k) {
 					delete(ref, k)
 				}
 			}
+			h.Stats["mixed_txns_reference_resynced_on_touched_keys"]++
 		}
 		if d := ref.diff(&after); d != "" {
 			h.Oracle = append(h.Oracle, fmt.Sprintf("step %d: C03:map-differs: %s", i, d))
